@@ -11,6 +11,7 @@ import (
 	"runtime"
 	"strings"
 	"sync"
+	"sync/atomic"
 	"testing"
 	"time"
 
@@ -613,12 +614,19 @@ func checkC17Conc(c C17Case) h.Outcome {
 	got := make([][]string, len(c.Ops))
 	hd := &holder{}
 	start := make(chan struct{})
+	var arrived int32
 	var wg sync.WaitGroup
 	for g, ops := range c.Ops {
 		wg.Add(1)
 		go func(g int, ops []C17Op) {
 			defer wg.Done()
 			<-start
+			// spin barrier: every goroutine is running (not merely runnable) when the first call is made, which
+			// keeps the first-use window populated even on a busy machine
+			atomic.AddInt32(&arrived, 1)
+			for spins := 0; atomic.LoadInt32(&arrived) < int32(len(c.Ops)) && spins < 1<<20; spins++ {
+				runtime.Gosched()
+			}
 			for _, op := range ops {
 				var s string
 				if pv := h.Guard(func() { s = op.runHold(shared, hd) }); pv != nil {
@@ -685,6 +693,14 @@ func TestC17_GridFirstUse(t *testing.T) {
 				cases = append(cases, c)
 			}
 		}
+	}
+	// the first signature of a fresh instance, raced by 12 goroutines, over and over (non-default algorithm)
+	for i := 0; i < 40; i++ {
+		c := C17Case{SP: c17SP(2)}
+		for g := 0; g < 12; g++ {
+			c.Ops = append(c.Ops, []C17Op{{Kind: []string{"authn-str", "logout-req", "sign-el", "logout-resp"}[(g+i)%4], Input: g, Arg: "r"}})
+		}
+		cases = append(cases, c)
 	}
 	h.RunCases(t, "C17.conc", cases, checkC17Conc)
 }
